@@ -8,11 +8,13 @@ Theorem C07_explore_sound : forall n x, explore n x = true -> all_schedules_ok n
 Proof. exact explore_sound. Qed.
 Print Assumptions C07_explore_sound.
 
-(* single-sided starts (query, whitespace tag, error-triggered, Send under require-encryption) and refreshes of
-   an established session, for every pair of version policies sharing a version and both outcomes of the
+(* single-sided starts (query, whitespace tag, error-triggered, Send under require-encryption), the same with a second
+   user message arriving at any moment of the exchange, asking again at once after End, and refreshes of an
+   established session, for every pair of version policies sharing a version and both outcomes of the
    commitment-hash comparison: every schedule completes *)
 Theorem C07_ake_live_partial :
-  forallb check_config (configs [SQueryOne; SWhitespace; SErrorStart; SRequireSend; SRefresh; SRefreshBoth]) = true.
+  forallb check_config (configs [SQueryOne; SWhitespace; SErrorStart; SRequireSend; SRefresh; SRefreshBoth;
+                                 SWhitespaceTwice; SRequireSendTwice; SAfterEnd; SAfterEndOther]) = true.
 Proof. vm_compute; reflexivity. Qed.
 Print Assumptions C07_ake_live_partial.
 
